@@ -18,7 +18,12 @@ RULE = ("tree lists (1-3 trees, 1-8 leaves quick / up to 30 thorough; polytomies
         "use a namespace whose MEMBER order differs from the accession order (sort(), sort(reverse=True), reverse(), remove_taxon + add_taxon "
         "applied after the trees were built; with taxa on no node), with TRANSLATE on / off (default tokens = accession index + 1), with and "
         "without TAXA blocks (suppress_taxa_blocks), and namespaces written on their own (TAXA block / otus only, read back as a DataSet) - the "
-        "namespace clause is judged on the member order at the time of writing; a fixed grid of such cases runs first for every seed; "
+        "namespace clause is judged on the member order at the time of writing; a fixed grid of such cases runs first for every seed; HISTORIES: every action of a menu of 33 other reader / writer activities "
+        "(successful and failed NEXUS reads with CHARSET position lists, interleaved matrices, comments, quoted tokens; failed Newick reads; reads with "
+        "preserve_underscores / case_sensitive_taxon_labels / extract_comment_metadata / exclude_*; writes with other options) is run in the same process "
+        "right before a round trip of a tree whose text is full of '-', 'e-', '+', '_' and quotes, through each schema, for every seed, and 15 % of the "
+        "random cases carry 1-3 such actions as a prelude - the round trip is judged exactly as without history, and the replay of any failing case "
+        "carries everything the process did before it; "
         "plus label-level (escape/next), token-stream and malformed-statement streams for the model correspondence; thorough adds "
         "every label-domain character in first/middle/last position, all pairs of special characters and all shapes <= 4 leaves with "
         "every anonymous-leaf pattern. Non-trivial = some label contains a character outside [A-Za-z0-9] or the options are non-default "
@@ -277,6 +282,9 @@ def gen_case(rng, schema=None, max_leaves=8, force=None):
     case = {"op": "roundtrip", "schema": schema, "labels": labels, "trees": trees, "wopts": wopts, "ropts": ropts,
             "via": "tree" if (ntrees == 1 and rng.random() < 0.4) else "treelist",
             "into": "source" if rng.random() < 0.2 else "fresh"}
+    # other reader / writer activity in the same process right before the round trip
+    if rng.random() < 0.15:
+        case["prelude"] = gen_prelude(rng)
     # without a TAXA block the taxon numbers of the reader refer to the namespace under construction: digit-only labels cannot
     # be carried into a FRESH namespace by that layout (boundary of the format, see report); the matching reader option is the
     # source namespace handed in
@@ -639,16 +647,140 @@ def xw_line(case, order):
         parts.append("%s %d %s" % (hex6(t.get("name")), rooted_code(t["rooted"]), enc_spec(t["spec"])))
     return "%s %d %s" % (",".join(hex6(x) for x in order) or "-", len(parts), " ".join(parts))
 
+
+# ------------------------------------------------------------------ histories: other reader / writer activity in the same process
+# A round trip must not depend on what the process read or wrote before.  A case may carry a `prelude` (a list of actions run
+# just before it); every action ever run in this process is also remembered (HISTORY) and attached to the replay of a failing
+# case as `history`, so that a failure caused by state that leaked from an earlier case is reproduced by the replay alone.
+_NX_HEAD = "#NEXUS\nBEGIN TAXA;\n DIMENSIONS NTAX=3;\n TAXLABELS A 'B b' C_c;\nEND;\n"
+_NX_MAT = ("BEGIN CHARACTERS;\n DIMENSIONS NCHAR=8;\n FORMAT DATATYPE=DNA GAP=- MISSING=?;\n MATRIX\n A ACGT-ACG\n 'B b' AC-TTACG\n"
+           " C_c ACGTTA?G\n ;\nEND;\n")
+_NX_ILV = ("BEGIN CHARACTERS;\n DIMENSIONS NCHAR=8;\n FORMAT DATATYPE=DNA GAP=- MISSING=? INTERLEAVE;\n MATRIX\n A ACGT\n 'B b' AC-T\n C_c ACGT\n\n"
+           " A -ACG\n 'B b' TACG\n C_c TA?G\n ;\nEND;\n")
+_NX_TREES = "BEGIN TREES;\n TRANSLATE 1 A, 2 'B b', 3 C_c;\n TREE 't-1' = [&R] (1:1e-05,(2:-0.5,3:2.5E-10)'in-t':1)[&x=1-2];\nEND;\n"
+
+
+def _rd(schema, text, as_="DataSet", **opts):
+    return {"do": "read", "schema": schema, "as": as_, "text": text, "opts": opts}
+
+
+PRELUDE_MENU = [
+    # successful and FAILED NEXUS reads: CHARSET position lists, interleaved matrices, comments, quoted tokens
+    ("nexus-charset-ok", _rd("nexus", _NX_HEAD + _NX_MAT + "BEGIN SETS;\n CHARSET c1 = 1-4;\n CHARSET c2 = 2-8\\3;\n CHARSET c3 = 1 3-. ;\nEND;\n")),
+    ("nexus-charset-bad-position", _rd("nexus", _NX_HEAD + _NX_MAT + "BEGIN SETS;\n CHARSET c = 1-x\\3;\nEND;\n")),
+    ("nexus-charset-truncated", _rd("nexus", _NX_HEAD + _NX_MAT + "BEGIN SETS;\n CHARSET c = 1-")),
+    ("nexus-charset-bad-step", _rd("nexus", _NX_HEAD + _NX_MAT + "BEGIN SETS;\n CHARSET c = 1-8\\q;\nEND;\n")),
+    ("nexus-interleaved-ok", _rd("nexus", _NX_HEAD + _NX_ILV + _NX_TREES)),
+    ("nexus-interleaved-bad-symbol", _rd("nexus", _NX_HEAD + _NX_ILV.replace("TA?G", "TA!G"))),
+    ("nexus-interleaved-truncated", _rd("nexus", _NX_HEAD + _NX_ILV[:_NX_ILV.index("\n A -ACG") + 6])),
+    ("nexus-interleaved-unknown-taxon", _rd("nexus", _NX_HEAD + _NX_ILV.replace(" A -ACG", " Z -ACG"))),
+    ("nexus-matrix-bad-symbol", _rd("nexus", _NX_HEAD + _NX_MAT.replace("AC-TTACG", "AC-TT!CG"))),
+    ("nexus-comments-quotes", _rd("nexus", "#NEXUS\n[a [nested] comment]\nBEGIN TAXA; DIMENSIONS NTAX=2; TAXLABELS [c]A[&x=1] 'it''s' ; END;\n"
+                                           "BEGIN TREES; TREE t = [&R] (A[&p=1]:1,'it''s':2)[&q={1,2}]; END;\n", extract_comment_metadata=True)),
+    ("nexus-unterminated-quote", _rd("nexus", "#NEXUS\nBEGIN TAXA; DIMENSIONS NTAX=2; TAXLABELS A 'B ; END;\n")),
+    ("nexus-unterminated-comment", _rd("nexus", "#NEXUS\nBEGIN TREES; TREE t = [&R (A,B); END;\n")),
+    ("nexus-too-many-taxa", _rd("nexus", "#NEXUS\nBEGIN TAXA; DIMENSIONS NTAX=1; TAXLABELS A B; END;\n")),
+    ("nexus-trees-only", _rd("nexus", _NX_HEAD + _NX_TREES, as_="TreeList", preserve_underscores=True)),
+    ("nexus-trees-case-sensitive", _rd("nexus", _NX_HEAD + _NX_TREES, as_="TreeList", case_sensitive_taxon_labels=True)),
+    ("nexus-exclude-chars", _rd("nexus", _NX_HEAD + _NX_ILV + _NX_TREES, exclude_chars=True)),
+    ("nexus-exclude-trees", _rd("nexus", _NX_HEAD + _NX_MAT + _NX_TREES, exclude_trees=True)),
+    # failed and unusual Newick reads
+    ("newick-unbalanced-open", _rd("newick", "((A,B);", as_="TreeList")),
+    ("newick-unbalanced-close", _rd("newick", "(A,B));", as_="TreeList")),
+    ("newick-bad-length", _rd("newick", "(A:1:x,B:1e-);", as_="TreeList")),
+    ("newick-two-labels", _rd("newick", "(A,B)C D;", as_="TreeList")),
+    ("newick-open-quote", _rd("newick", "('A,B);", as_="TreeList")),
+    ("newick-duplicate-taxon", _rd("newick", "(A,a,A);", as_="TreeList")),
+    ("newick-preserve-underscores", _rd("newick", "(a_b:1e-05,'c d':-1)x_y;", as_="TreeList", preserve_underscores=True)),
+    ("newick-case-sensitive", _rd("newick", "(Aa,aA);", as_="TreeList", case_sensitive_taxon_labels=True)),
+    ("newick-comment-metadata", _rd("newick", "[&R] (A[&x=1-2]:1,B:2)[&y={a-b,c}];[&U](B,A);", as_="TreeList", extract_comment_metadata=True)),
+    ("newick-internal-taxa", _rd("newick", "((A,B)C-1:1e-05,D)E+;", as_="TreeList", suppress_internal_node_taxa=False, rooting="force-rooted")),
+    ("newick-tree-offset", _rd("newick", "(A,B);(C,D);", as_="Tree", tree_offset=5)),
+    # NeXML: a failed read
+    ("nexml-not-xml", _rd("nexml", "<nex:nexml", as_="TreeList")),
+    # writes with other options
+    ("write-newick-options", {"do": "write", "schema": "newick", "labels": ["a-b", "c_d", "e f", "it's"],
+                              "wopts": {"preserve_spaces": True, "unquoted_underscores": True, "suppress_rooting": True, "suppress_edge_lengths": True}}),
+    ("write-nexus-translate", {"do": "write", "schema": "nexus", "labels": ["a-b", "c_d", "e f", "1"],
+                               "wopts": {"translate_tree_taxa": True, "store_tree_weights": True}}),
+    ("write-nexus-simple", {"do": "write", "schema": "nexus", "labels": ["a-b", "c_d"], "wopts": {"simple": True, "suppress_annotations": True}}),
+    ("write-nexml", {"do": "write", "schema": "nexml", "labels": ["a-b", "c<d", "e&f"], "wopts": {}}),
+]
+HISTORY = []          # JSON keys of the actions run so far in this process, first occurrence order
+_HISTORY_SEEN = set()
+
+
+def run_prelude(ctx, dendropy, actions):
+    """run the actions; none of them is judged (whether a malformed document is refused is C20's subject): successes,
+    refusals and crashes alike only serve as history for the round trip that follows"""
+    for a in actions or ():
+        key = json.dumps(a, sort_keys=True)
+        if key not in _HISTORY_SEEN:
+            _HISTORY_SEEN.add(key)
+            HISTORY.append(a)
+        outcome = "ok"
+        try:
+            with time_limit(10):
+                if a["do"] == "read":
+                    cls = {"DataSet": dendropy.DataSet, "TreeList": dendropy.TreeList, "Tree": dendropy.Tree}[a.get("as", "DataSet")]
+                    cls.get(data=a["text"], schema=a["schema"], **a.get("opts", {}))
+                elif a["do"] == "write":
+                    tl = build_treelist(dendropy, simple_case(a["schema"], a["labels"]))
+                    tl.as_string(a["schema"], **a.get("wopts", {}))
+        except Timeout:
+            outcome = "timeout"
+        except RecursionError:
+            outcome = "raised"
+        except Exception:
+            outcome = "raised"
+        if ctx is not None:
+            ctx.count("history-action:%s:%s" % (a["do"], outcome))
+
+
+def with_history(case):
+    """the replay record of a failing case: the case plus everything this process did before it"""
+    if not HISTORY:
+        return case
+    rec = dict(case)
+    own = {json.dumps(a, sort_keys=True) for a in case.get("prelude") or ()}
+    rec["history"] = [a for a in HISTORY if json.dumps(a, sort_keys=True) not in own]
+    return rec
+
+
+HYPHEN_LABELS = ["Pan-troglodytes", "a+b", "c_d", "it's", "e-", "-1", "x-y z"]
+
+
+def hyphen_case(schema, prelude):
+    """a tree whose text carries '-', 'e-', '+', '_', quotes outside quotes wherever the format allows"""
+    lens = [1e-05, -0.5, 2.5e-10, 1e+22, -3, 6.02e-23, 1.5]
+    spec = [None, None, None, [[l, None, x, []] for l, x in zip(HYPHEN_LABELS[:4], lens)] +
+            [[None, "in-t" if schema != "nexml" else "in-t", 1e-07, [[l, None, x, []] for l, x in zip(HYPHEN_LABELS[4:], lens[4:])]]]]
+    c = simple_case(schema, list(HYPHEN_LABELS), spec=spec, rooted=True)
+    c["prelude"] = prelude
+    return c
+
+
+def history_cases():
+    out = []
+    for name, action in PRELUDE_MENU:
+        for schema in SCHEMAS:
+            out.append(hyphen_case(schema, [action]))
+    return out
+
+
+def gen_prelude(rng):
+    return [rng.choice(PRELUDE_MENU)[1] for _ in range(rng.choice([1, 1, 2, 3]))]
+
 # ------------------------------------------------------------------ the round-trip case: implementation, oracle, model
 def case_key(case):
     return [case.get("op"), case.get("schema"), case.get("labels"), case.get("trees"), case.get("wopts"), case.get("ropts"), case.get("text"),
-            case.get("via"), case.get("into"), case.get("ns_ops")]
+            case.get("via"), case.get("into"), case.get("ns_ops"), case.get("prelude")]
 
 
 def nontrivial(case):
     if case.get("op") != "roundtrip":
         return True
-    if case["wopts"] or case["ropts"] or len(case["trees"]) > 1 or case.get("ns_ops"):
+    if case["wopts"] or case["ropts"] or len(case["trees"]) > 1 or case.get("ns_ops") or case.get("prelude"):
         return True
     for t in case["trees"]:
         for nd in spec_nodes(t["spec"]):
@@ -663,16 +795,21 @@ def nontrivial(case):
 def run_roundtrip(ctx, dendropy, case, pending):
     schema, wopts, ropts = case["schema"], case["wopts"], case["ropts"]
     ctx.case(case_key(case), nontrivial(case), sample=case, kind="roundtrip-" + schema)
+    if case.get("history") or case.get("prelude"):
+        run_prelude(ctx, dendropy, case.get("history"))
+        run_prelude(ctx, dendropy, case.get("prelude"))
+        ctx.count("roundtrip-after-history")
+    rec = with_history(case)
     single = case.get("via") == "tree" and len(case["trees"]) == 1
     try:
         with time_limit(20):
             tl = build_treelist(dendropy, case)
             text = (tl[0] if single else tl).as_string(schema, **wopts)
     except Timeout:
-        ctx.fail("hang", "writing to %s did not finish" % schema, case)
+        ctx.fail("hang", "writing to %s did not finish" % schema, rec)
         return
     except Exception as e:
-        ctx.fail("write-error", "writing to %s raised %s: %s" % (schema, type(e).__name__, str(e)[:200]), case)
+        ctx.fail("write-error", "writing to %s raised %s: %s" % (schema, type(e).__name__, str(e)[:200]), rec)
         return
     # the source namespace in ITS member order (differs from the accession order after sort / reverse / remove + add)
     order, acc = ns_sim(case)
@@ -697,10 +834,10 @@ def run_roundtrip(ctx, dendropy, case, pending):
             else:
                 tl2 = dendropy.TreeList.get(data=text, schema=schema, **kw)
     except Timeout:
-        ctx.fail("hang", "re-reading the %s text did not finish" % schema, case)
+        ctx.fail("hang", "re-reading the %s text did not finish" % schema, rec)
     except Exception as e:
         ctx.fail("read-error", "re-reading the written %s text raised %s: %s | text: %r" % (
-            schema, type(e).__name__, str(e)[:160], text[-300:]), case)
+            schema, type(e).__name__, str(e)[:160], text[-300:]), rec)
     if tl2 is not None:
         probs = oracle(case, tl2, order)
         if not probs and case.get("into") == "source":
@@ -709,7 +846,7 @@ def run_roundtrip(ctx, dendropy, case, pending):
                     nd.taxon is not None and id(nd.taxon) not in src for t2_ in tl2 for nd in tu.walk(t2_.seed_node)):
                 probs = [("namespace-identity", "read into the source namespace, but the trees refer to other Taxon objects / another namespace")]
         for kind, what in probs[:1]:
-            ctx.fail(kind, "%s round trip (%s / %s): %s" % (schema, wopts, ropts, what), case)
+            ctx.fail(kind, "%s round trip (%s / %s): %s" % (schema, wopts, ropts, what), rec)
     # ---- model
     stw = bool(ropts.get("store_tree_weights"))
     if schema == "newick":
@@ -974,7 +1111,7 @@ def run_label(ctx, dendropy, label, ps, uu, pu, pending, follow=":"):
             first = toks.split(" ")[0]
             if first[2:] != hex6(label) or first[:2] not in ("P:", "Q:"):
                 ctx.fail("label-token", "label %r written as %r (%s protect class, preserve_spaces=%s unquoted_underscores=%s) is read back "
-                         "(preserve_underscores=%s) as tokens %s" % (label, esc, which, ps, uu, pu, show_tokens(toks)), case)
+                         "(preserve_underscores=%s) as tokens %s" % (label, esc, which, ps, uu, pu, show_tokens(toks)), with_history(case))
 
 
 def show_tokens(toks):
@@ -1101,6 +1238,10 @@ def run(ctx):
     # fixed corner cases first
     for case in corner_cases():
         (run_taxa_only if case.get("op") == "taxa-only" else run_roundtrip)(ctx, dendropy, case, pending)
+    flush(ctx, pending)
+    # round trips PRECEDED by other activity in this process (every action of the menu, then a tree full of '-', 'e-', '+', '_', quotes)
+    for case in history_cases():
+        run_roundtrip(ctx, dendropy, case, pending)
     flush(ctx, pending)
     # label level
     for _ in range(ctx.pick(500, 6000)):
@@ -1284,6 +1425,8 @@ def replay(ctx, rec):
     c = rec["replay"]
     pending = []
     op = c.get("op")
+    if op != "roundtrip" and c.get("history"):
+        run_prelude(ctx, dendropy, c.get("history"))     # what the process had done before the failing case
     if op == "roundtrip":
         run_roundtrip(ctx, dendropy, c, pending)
     elif op == "taxa-only":
@@ -1304,6 +1447,10 @@ def search(ctx, broken):
     dendropy = __import__("dendropy")
     special, alpha = live_chars()
     pending = []
+    # histories first: state that leaks from one read into the next shows only when something was read before
+    for case in history_cases():
+        run_roundtrip(ctx, dendropy, case, pending)
+    flush(ctx, pending)
     for c in sorted(set(special) | set(alpha)):
         for f in ("a" + c + "b", c + "a", "a" + c, c, "Pan" + c + "paniscus L."):
             if clean_label(f) != f or not f:
